@@ -48,9 +48,9 @@ func formatSchema(g *Gen, depth int) M {
 		}
 		if r.Chance(400) {
 			// a sibling that is absent from the instance and has a default (it is "created from defaults")
-			props[pick(r, propNames)+"0"] = M{"type": "string", "default": "x"}
+			props[pick(r, propNames)] = M{"type": "string", "default": "x"}
 			if r.Chance(500) {
-				s["required"] = []any{pick(r, propNames) + "0"}
+				s["required"] = []any{pick(r, propNames)}
 			}
 		}
 		return s
@@ -92,6 +92,9 @@ func formatInstance(g *Gen, s M, depth int) any {
 		if props, ok := s["properties"].(M); ok {
 			for _, k := range sortedKeys(props) {
 				if sub, ok := props[k].(M); ok && r.Chance(850) {
+					if _, hasDefault := sub["default"]; hasDefault {
+						continue // left out: the validator counts it as created from its default
+					}
 					o[k] = formatInstance(g, sub, depth+1)
 				}
 			}
